@@ -81,9 +81,9 @@ pub fn roots(tier: &str, seed: u64) -> Vec<Root> {
                 }
                 k += 1;
                 let inputs: Vec<u64> = (0..n as u64).map(|p| (seed.wrapping_mul(31) + k * 17 + p * 101) % 256).collect();
-                let dfs_budget = if n == 2 { if thorough { 400 } else { 40 } } else if thorough { 600 } else { 12 };
+                let dfs_budget = if n == 2 { if thorough { 600 } else { 120 } } else if thorough { 900 } else { 40 };
                 v.push(Root { prog: prog.clone(), leader, out_mask: m.clone(), inputs: inputs.clone(), mode: "dfs", budget: dfs_budget, seed: seed ^ k });
-                v.push(Root { prog: prog.clone(), leader, out_mask: m.clone(), inputs, mode: "random", budget: if thorough { 40 } else { 6 }, seed: seed ^ (k << 20) });
+                v.push(Root { prog: prog.clone(), leader, out_mask: m.clone(), inputs, mode: "random", budget: if thorough { 60 } else { 12 }, seed: seed ^ (k << 20) });
             }
         }
     }
